@@ -891,6 +891,170 @@ let () =
       case { c with asz = aszv } bytes
     done)
 
+(* ================================================================== table evaluation THROUGH encoded DW_CFA_set_loc *)
+module SL = CfiRunSetLoc
+
+(* an FDE program: set_loc to an absolute target, or raw instruction bytes *)
+type slins = SetLoc of Z.t | Rawi of int list | SetLocRaw of Z.t   (* SetLocRaw: the operand value as given *)
+
+let app_base (c : cfg) enc pos : Z.t =
+  match enc land 0x70 with
+  | 0x10 -> Z.add (match c.bsec with Some b -> b | None -> Z.zero) (Z.of_int pos)
+  | 0x20 -> (match c.btext with Some b -> b | None -> Z.zero)
+  | 0x30 -> (match c.bdata with Some b -> b | None -> Z.zero)
+  | _ -> Z.zero
+
+(* the operand bytes of a set_loc at section offset pos reaching target t under enc (None: plain address) *)
+let setloc_operand (c : cfg) asz enc pos (t : Z.t) ~(raw : bool) : Byte0.byte list =
+  let fmt = if enc < 0 then 0 else enc land 15 in
+  let bits = match fmt with 0 -> 8 * asz | 2 | 10 -> 16 | 3 | 11 -> 32 | _ -> 64 in
+  let v = if raw || enc < 0 then t else Z.sub t (app_base c enc pos) in
+  let v = if fmt >= 9 then
+      (* signed formats: the value as sign-extended u64, reduced into the format's range *)
+      let m = p2 bits in let x = Z.erem v m in zmod64 (if Z.geq x (p2 (bits - 1)) then Z.sub x m else x)
+    else Z.erem v (p2 bits) in
+  S.enc_value (n_of_int fmt) (n_of_int asz) c.be (n_of_z v)
+
+let assemble (c : cfg) asz enc ~(instr_off : int) (prog : slins list) : Byte0.byte list =
+  let cur = ref 0 in
+  List.concat_map (fun i ->
+    let bs = match i with
+      | Rawi l -> bytes_of_ints l
+      | SetLoc t -> byte_of_int 1 :: setloc_operand c asz enc (instr_off + !cur + 1) t ~raw:false
+      | SetLocRaw v -> byte_of_int 1 :: setloc_operand c asz enc (instr_off + !cur + 1) v ~raw:true in
+    cur := !cur + List.length bs; bs) prog
+
+(* scenarios relative to the FDE's actual start s0, length len, code alignment caf *)
+let sl_scenarios = 12
+let sl_prog r k (s0 : Z.t) (len : int) (caf : int) : slins list =
+  let at d = Z.add s0 (Z.of_int d) in
+  let cfao n = Rawi [0x0e; n] and offs g q = Rawi [0x80 lor g; q] and adv d = Rawi [0x40 lor d] in
+  match k with
+  | 0 -> [ SetLoc (at 8); cfao 16; SetLoc (at 24); offs 3 2 ]
+  | 1 -> [ SetLoc s0; cfao 24; SetLoc (at 8); offs 6 1 ]                       (* to the row's own start: empty row *)
+  | 2 -> [ SetLoc (at 8); cfao 16; SetLoc (at 8); cfao 32 ]                     (* the same address twice *)
+  | 3 -> [ adv 4; cfao 16; SetLoc (at (4 * caf - 1)); cfao 32 ]                 (* one below the current row's start: InvalidCfiSetLoc *)
+  | 4 -> [ SetLoc (at len); cfao 16 ]                                           (* exactly the FDE's end *)
+  | 5 -> [ SetLoc (at (len + 16)); cfao 16 ]                                    (* beyond the end *)
+  | 6 -> [ SetLoc (Z.sub s0 Z.one); cfao 16 ]                                   (* below the FDE's start *)
+  | 7 -> [ SetLoc (at 8); cfao 16; Rawi [0x01; 0x05] ]                          (* truncated operand at the end of the FDE *)
+  | 8 -> [ adv 2; offs 5 1; SetLoc (at (2 * caf)); cfao 8; adv 1; SetLoc (at (3 * caf + 1)); Rawi [0x0a]; SetLoc (at (len - 1)); Rawi [0x0b] ]
+  | 9 -> [ cfao 8; SetLoc (at 4); SetLoc (at 3) ]                               (* backwards after a forward set_loc *)
+  | 10 -> [ SetLocRaw (pick r [| Z.zero; Z.one; Z.of_int 0x7f; Z.of_int 0x80; Z.of_int 0x7fff; Z.of_int 0xffff; Z.pred (p2 31); p2 31; Z.pred (p2 32); mask64; p2 63 |]); cfao 16 ]
+  | _ ->
+      let n = 1 + rand_int r 6 in
+      let loc = ref 0 in
+      List.init n (fun _ ->
+        match rand_int r 6 with
+        | 0 | 1 -> let d = match rand_int r 6 with 0 -> 0 | 1 -> -1 - rand_int r 3 | _ -> 1 + rand_int r 12 in
+                   loc := max 0 (!loc + d); SetLoc (at !loc)
+        | 2 -> let d = 1 + rand_int r 5 in loc := !loc + d * caf; adv d
+        | 3 -> cfao (rand_int r 100)
+        | 4 -> offs (rand_int r 20) (rand_int r 8)
+        | _ -> Rawi (pick r [| [0x0a]; [0x0b]; [0x00]; [0x07; 0x09]; [0x2e; 0x10] |]))
+
+(* a section CIE(R enc) + FDEs whose programs are built once the FDEs' actual start addresses and instruction
+   offsets are known (first pass with placeholder programs of the same size) *)
+let sl_section r (c : cfg) enc ~(fmt64 : bool) ~(caf : int) (specs : (int * int * int) list) (* (start, len, scenario) *)
+  : int list =
+  let items = if enc < 0 then (false, []) else (true, [S.AR (n_of_int enc)]) in
+  let ci = { (rand_cie r c ~items ()) with S.c_ver = n_of_int (if c.eh then 1 else 3); S.c_fmt64 = fmt64; S.c_caf = n_of_int caf;
+             S.c_daf = cz_of_int (-8); S.c_rar = n_of_int 16; S.c_instr = bytes_of_ints [0x0c; 7; 8; 0x90; 1] } in
+  let asz = c.asz in
+  let pcrel = enc >= 0 && enc land 0x70 = 0x10 in
+  let mk_fde start len instr =
+    let init_raw = if enc < 0 then Z.of_int start else
+        let fmt = enc land 15 in
+        let bits = match fmt with 0 -> 8 * asz | 2 | 10 -> 16 | 3 | 11 -> 32 | _ -> 64 in
+        let v = Z.sub (Z.of_int start) (if pcrel then (match c.bsec with Some b -> b | None -> Z.zero) else app_base c enc 0) in
+        if fmt >= 9 then (let m = p2 bits in let x = Z.erem v m in zmod64 (if Z.geq x (p2 (bits - 1)) then Z.sub x m else x)) else Z.erem v (p2 bits) in
+    S.EFde { S.f_fmt64 = fmt64; f_cie = nat_of_int 0; f_init = n_of_z init_raw; f_range = n_of_int len; f_lsda = n_of_int 0;
+             f_pad = []; f_instr = instr } in
+  let progs0 = List.map (fun (start, len, k) -> (start, len, k, mk_rng (start * 31 + k))) specs in
+  let build (known : (Z.t * int) list option) =
+    encode c (S.ECie ci :: List.mapi (fun j (start, len, k, r0) ->
+      let r1 = { s = r0.s } in
+      let (s0, ioff) = match known with Some l -> List.nth l j | None -> (Z.of_int start, 0) in
+      mk_fde start len (assemble c asz enc ~instr_off:ioff (sl_prog r1 k s0 len caf))) progs0) in
+  let pass1 = build None in
+  let fds = model_fdes false c pass1 in
+  if List.length fds <> List.length specs then ints_of_bytes pass1 else
+  let known = List.map (fun (f : M.fde) -> (z_of_n f.M.fd_init, int_of_n f.M.fd_instr.M.off)) fds in
+  ints_of_bytes (build (Some known))
+
+let sl_probes (c : cfg) aarch64 sec : Z.t list =
+  let caps = S_c06.caps_of_storage 0 in
+  let acc = ref [] in
+  List.iter (fun (f : M.fde) ->
+    let i = z_of_n f.M.fd_init in
+    let e = (match M.fde_end false f with Res.Ok e -> z_of_n e | _ -> i) in
+    acc := [Z.pred i; i; Z.pred e; e] @ !acc;
+    (match RN.new_ctx caps with
+     | Res.Ok cx ->
+         let ((rows, _), _) = SL.fde_rows_sl false caps (scfg_of c) aarch64 f cx in
+         List.iteri (fun k (rw : RN.row) -> if k < 6 then
+           acc := [z_of_n rw.RN.r_start; Z.pred (z_of_n rw.RN.r_end); z_of_n rw.RN.r_end] @ !acc) rows
+     | _ -> ())) (model_fdes false c sec);
+  let l = List.sort_uniq Z.compare (List.map zmod64 !acc) in
+  if List.length l > 20 then List.filteri (fun i _ -> i mod (1 + List.length l / 20) = 0) l else l
+
+let sl_model dbg storage aarch64 (c : cfg) sec (addrs : Z.t list) : string = guard (fun () ->
+  let caps = S_c06.caps_of_storage storage in
+  match RN.new_ctx caps with
+  | Res.Ok cx0 ->
+      let cx = ref cx0 in
+      "ok" ^ String.concat "" (List.map (fun a ->
+        let (x, cx') = SL.unwind_info_for_address_sl dbg caps (scfg_of c) aarch64 sec !cx (n_of_z a) in
+        cx := cx'; " | " ^ pr_uwi_one x) addrs)
+  | _ -> "panic")
+
+let () =
+  register "c05.setloctab" ~doc:"UnwindSection::unwind_info_for_address THROUGH DW_CFA_set_loc operands under the CIE's FDE address encoding: .eh_frame 'R' encodings (absptr, pcrel, textrel, datarel x udata2/4/8, sdata2/4/8, uleb/sleb, indirect, funcrel, aligned) and none (.debug_frame / no augmentation) x address sizes 4/8 x both byte orders x bases present/absent x 12 scenarios (forward, to the row's own start, same address twice, one below the row start -> InvalidCfiSetLoc, at / beyond the FDE end, below the FDE start, truncated operand, mixed with advance_loc and remember/restore, boundary operand values); probes at every FDE and row boundary; one UnwindContext reused; model = CfiRunSetLoc.unwind_info_for_address_sl" (fun ~seed ~n emit ->
+    let case storage (c : cfg) (bytes : int list) =
+      if not (Streams.mine ()) then Streams.skip () else begin
+        let sec = bytes_of_ints bytes in
+        let addrs = sl_probes c false sec in
+        let cs = Printf.sprintf "c05.setloctab L %d 0 %s %s%s" storage (cfg_toks c) (hex_of_ints bytes)
+                   (String.concat "" (List.map (fun z -> " " ^ Z.to_string z) addrs)) in
+        both emit cs (fun dbg -> sl_model dbg storage false c sec addrs)
+      end in
+    let r = mk_rng seed in
+    let encs = [ -1; 0x00; 0x1b; 0x10; 0x1c; 0x13; 0x0b; 0x03; 0x02; 0x04; 0x0c; 0x33; 0x3b; 0x23; 0x30; 0x01; 0x09; 0x31; 0x9b; 0x80; 0x43; 0x50; 0x1a ] in
+    List.iter (fun enc ->
+      List.iter (fun asz ->
+        List.iter (fun be ->
+          for k = 0 to sl_scenarios - 1 do
+            let c = { eh = true; be; asz; bsec = Some (Z.of_int 0x1000); btext = Some (Z.of_int 0x100); bdata = Some (Z.of_int 0x300) } in
+            let start = if enc >= 0 && enc land 15 = 2 then 0x2000 else 0x20000 in
+            case 0 c (sl_section r c enc ~fmt64:false ~caf:(if k land 1 = 0 then 1 else 4) [ (start, 64, k); (start + 0x100, 40, (k + 5) mod sl_scenarios) ])
+          done) [ false; true ]) [ 8; 4 ]) encs;
+    (* missing bases, .debug_frame (plain operand), address near the top of the address space *)
+    List.iter (fun enc ->
+      for k = 0 to sl_scenarios - 1 do
+        let c = { eh = true; be = false; asz = 8; bsec = None; btext = None; bdata = None } in
+        case 0 c (sl_section r c enc ~fmt64:false ~caf:1 [ (0x20000, 64, k) ])
+      done) [ 0x1b; 0x33; 0x23; 0x00 ];
+    List.iter (fun asz ->
+      for k = 0 to sl_scenarios - 1 do
+        let c = { eh = false; be = (k land 1 = 1); asz; bsec = Some (Z.of_int 0x1000); btext = None; bdata = None } in
+        case 0 c (sl_section r c (-1) ~fmt64:(k land 2 = 2) ~caf:2 [ (0x4000, 64, k) ]);
+        let top = if asz = 4 then 0x7fffffc0 * 2 else 0x7fffffc0 in
+        let c = { eh = true; be = false; asz; bsec = Some (Z.of_int 0x1000); btext = None; bdata = None } in
+        case 0 c (sl_section r c 0x00 ~fmt64:false ~caf:1 [ (top, 64, k) ])
+      done) [ 4; 8 ];
+    for _ = 1 to n do
+      let asz = pick r [| 8; 4; 8; 4; 2 |] in
+      let c = { eh = rand_int r 8 <> 0; be = rand_bool r; asz; bsec = (if rand_int r 8 = 0 then None else Some (Z.of_int 0x1000));
+                btext = (if rand_int r 3 = 0 then None else Some (Z.of_int 0x100)); bdata = (if rand_int r 3 = 0 then None else Some (Z.of_int 0x300)) } in
+      let enc = if not c.eh then -1 else match rand_int r 10 with 0 -> -1 | 1 -> pick_enc r | _ -> pick r [| 0x00; 0x1b; 0x10; 0x0b; 0x03; 0x33; 0x23; 0x1c; 0x02; 0x01; 0x09; 0x04 |] in
+      let lim = if asz = 2 || (enc >= 0 && (enc land 15 = 2 || enc land 15 = 10)) then 0x3000 else 0x100000 in
+      let nf = 1 + rand_int r 3 in
+      let specs = List.init nf (fun j -> (0x1800 + j * (lim / 4) + rand_int r 64, 8 + rand_int r 120, if rand_int r 3 = 0 then 11 else rand_int r sl_scenarios)) in
+      let bytes = sl_section r c enc ~fmt64:(rand_int r 8 = 0) ~caf:(pick r [| 1; 1; 2; 4 |]) specs in
+      let bytes = if rand_int r 10 = 0 then mutate r bytes else bytes in
+      case (pick r [| 0; 0; 0; 5; 2; 1 |]) c bytes
+    done)
+
 (* ================================================================== EhHdrTableIter histories *)
 type hop = HNext | HNth of Z.t | HHint
 let hop_tok = function HNext -> "n" | HNth k -> "k" ^ Z.to_string k | HHint -> "h"
